@@ -184,9 +184,9 @@ def recvStep (st : State σ τ) (k : Nat) : Option (State σ τ) :=
     | m :: rest =>
       let fl := st.ctl.env.flags.get k
       let r := Receiver.step { down := fl.down, shutdownSent := fl.sent } (toRecv k m)
-      -- the channel is closed once the end marker was seen (no `OSError` window any more)
+      -- once the end marker of a dead worker was seen the channel is closed: every further send raises `OSError`
       let fl' : NodeFlags := { down := r.1.down, sent := r.1.shutdownSent,
-                               broken := match m with | .endMarker => false | _ => fl.broken }
+                               broken := match m with | .endMarker => fl.broken || !w.alive | _ => fl.broken }
       let outs' := if r.2.2 && !fl.broken then st.ctl.env.outs ++ [SOut.shutdown k] else st.ctl.env.outs
       let env' : Env := { flags := AList.set st.ctl.env.flags k fl', outs := outs' }
       let wk1 := st.wk.set k { w with outbox := rest, posted := w.posted ++ r.2.1.map (ofPost k) }
